@@ -38,7 +38,7 @@ def one(d, props):
     tmp = tempfile.mkdtemp(prefix="pfl-pres-")
     try:
         wt = os.path.join(tmp, "repo")
-        run(["git", "-C", REPO, "worktree", "add", "--detach", "-f", wt, "HEAD"])
+        run(["git", "-C", REPO, "worktree", "add", "--detach", "-f", wt, os.environ.get("VERIF_BASE", "HEAD")])
         env = dict(os.environ, PYTHONPATH=wt, PYTHONHASHSEED="0")
         eq = os.path.join(d, "equiv.py")
         rc0, out0 = run([PY, eq], cwd=wt, env=env, timeout=900) if os.path.exists(eq) else (0, "")
